@@ -2,6 +2,7 @@ import Lean.Data.Json
 import SpoxModel.Model.Prog
 import SpoxModel.Model.ProgUsed
 import SpoxModel.Model.Containers
+import SpoxModel.Model.Bridge
 /-!
 Line-protocol handler for C01: the model side of the translation validation.
 
@@ -105,9 +106,53 @@ def handleEvents (evs : Json) : Json :=
   | .ok j => j
   | .error e => Json.mkObj [("error", e)]
 
+mutual
+partial def egJ : EGraph → Json
+  | .mk args body res => Json.arr #[toJson args, Json.arr (body.map enJ).toArray,
+      Json.arr (res.map (fun r => toJson [r.node, r.idx])).toArray]
+partial def enJ : ENode → Json
+  | .mk id subs => Json.arr #[toJson id, Json.arr (subs.map egJ).toArray]
+end
+
+/-- `{"bridge": {"nodes": [{"a","i","s"}…], "graphs": [{"res", "args"?}…]}}` (C04's program format): run the
+    Builder algorithm model on the program and answer the executable hypotheses of
+    `C01Build.built_model_computes_dataflow` (`WFb`, `build = ok`, `mainCleanB`), `validG` of the model's
+    emission (`Bridge.toEGraph`) and that emission itself (compared by the harness with the emission read
+    from the real ModelProto). -/
+def handleBridge (j : Json) : Json :=
+  match (do
+    let ns ← j.getObjValAs? (Array Json) "nodes"
+    let gs ← j.getObjValAs? (Array Json) "graphs"
+    let nodes ← ns.toList.mapM fun (n : Json) => do
+      let a ← n.getObjValAs? Bool "a"
+      let i ← n.getObjValAs? (List Nat) "i"
+      let s ← n.getObjValAs? (List Nat) "s"
+      return (⟨a, i, s⟩ : BuildAlg.PNode)
+    let graphs ← gs.toList.mapM fun (g : Json) => do
+      let r ← g.getObjValAs? (List Nat) "res"
+      let args : Option (List Nat) := match g.getObjValAs? (List Nat) "args" with
+        | .ok l => some l
+        | .error _ => none
+      return (⟨args, r⟩ : BuildAlg.PGraph)
+    let p : BuildAlg.Prog := ⟨nodes, graphs⟩
+    match BuildAlg.build p with
+    | .error _ => return Json.mkObj [("wf", toJson p.WFb), ("built", toJson false)]
+    | .ok (b, _) =>
+      let q := Bridge.toProg p b.argsOf
+      let e := Bridge.toEGraph p b
+      return Json.mkObj [("wf", toJson p.WFb), ("built", toJson true),
+        ("mainClean", toJson (Bridge.mainCleanB p b)),
+        ("valid", toJson (validG q.nodes e q.main [])),
+        ("emit", egJ e)]) with
+  | .ok j => j
+  | .error e => Json.mkObj [("error", e)]
+
 def handle (req : Json) : Json :=
   match req.getObjVal? "events" with
   | .ok evs => handleEvents evs
+  | .error _ =>
+  match req.getObjVal? "bridge" with
+  | .ok j => handleBridge j
   | .error _ =>
   match (do
     let nodesJ ← req.getObjValAs? (Array Json) "nodes"
